@@ -121,6 +121,15 @@ func GenOAFile(r *R, idx int, o OAOpts) (*ir.Request, []string) {
 		}
 		f.Messages = append(f.Messages, hv)
 		pool = append(pool, P+"Hostile")
+		// a FLATTENED discriminated oneof whose custom values are no component-key characters: every name the
+		// document derives from such a value (variant component, $ref, discriminator mapping target) must agree
+		odd := []string{"user:created", "order placed", "a/b", "c+d", "x@y", "été", "img", "user.joined-v1"}
+		hf := &ir.Message{Name: "HostileFlat", Oneofs: []*ir.Oneof{{Name: "content", HasConfig: true, Discriminator: sp("type"), Flatten: true}},
+			Fields: []*ir.Field{{Name: "id", Number: 1, Kind: "string"},
+				{Name: "created", Number: 2, Kind: "message", TypeName: P + "OaLeaf", Oneof: "content", Ann: ir.Ann{OneofValue: sp(odd[idx%len(odd)])}},
+				{Name: "placed", Number: 3, Kind: "message", TypeName: P + "HostilePart", Oneof: "content", Ann: ir.Ann{OneofValue: sp(odd[(idx+3)%len(odd)])}}}}
+		f.Messages = append(f.Messages, &ir.Message{Name: "HostilePart", Fields: []*ir.Field{{Name: "qty", Number: 1, Kind: "int32"}}}, hf)
+		pool = append(pool, P+"HostileFlat")
 	}
 	for _, m := range f.Messages {
 		if m.Name != "OaLeaf" && len(pool) < 12 {
@@ -183,6 +192,14 @@ func GenOAFile(r *R, idx int, o OAOpts) (*ir.Request, []string) {
 			if nv > 0 && o.on("repeated_var", r, 1, 10) {
 				path += "/again/{" + in.Fields[0].Name + "}"
 				tag("repeated_var")
+			}
+			if nv > 0 && o.on("query_named_like_path_var", r, 1, 8) {
+				// a query parameter (of ANOTHER field) whose wire name is a variable of the operation's own path:
+				// parameter names are unique per LOCATION only
+				qf := &ir.Field{Name: uniqueName(used, "on_"+in.Fields[0].Name), Number: no, Kind: "bool", Ann: ir.Ann{Query: &ir.Query{Name: in.Fields[0].Name}}}
+				in.Fields = append(in.Fields, qf)
+				no++
+				tag("query_named_like_path_var")
 			}
 			nq := r.Intn(3)
 			for q := 0; q < nq; q++ {
